@@ -165,4 +165,15 @@ theorem zero_limit_refused (o : FOpts) (nd : Bool) : validOptions { o with maxBl
 theorem auto_no_data_only_in_place (o : Cli.CliOpts) (h : Pipes.samePath o.source o.target = false) : Pipes.autoNoData o = false :=
   Pipes.auto_no_data_needs_same_repository o h
 
+
+/-- a size limit of zero (or all ones) never reaches the filter: whatever else is on the command line, `validate_options`
+    refuses the option set and the line is dispatched to `refused` (or to a scan mode, which does not filter) -/
+theorem zero_limit_never_filters (o : Cli.CliOpts) (h : o.maxBlob = some 0 ∨ o.maxBlob = some 18446744073709551615) :
+    Pipes.dispatch o ≠ .filter := by
+  have hv : Pipes.validCli o = false := by
+    unfold Pipes.validCli
+    rcases h with h | h <;> simp [h]
+  unfold Pipes.dispatch
+  cases o.detectSecrets <;> cases o.analyze <;> simp [hv]
+
 end Frrs.C06
